@@ -18,6 +18,17 @@ for c in out.get('claims') or []:
         for k,v in c['reqs'].items():
             if k.startswith('karpenter.sh/init') or k.startswith('karpenter.sh/reg') or 'testnodeclass' in k: continue
             print('   ',k,'complement' if v['complement'] else 'in',v['values'],v['gte'],v['lte'],v['minValues'])
+# storage of the failing pod: claim -> bound PV terms / storage class topologies
+pvcs={(c.get('namespace') or 'default',c['name']):c for c in s.get('pvcs') or []}
+pvs={v['name']:v for v in s.get('pvs') or []}; scs={c['name']:c for c in s.get('storageClasses') or []}
+for p in allpods:
+    if p['name']==pn or (not pn and p.get('volumes')):
+        for v in p.get('volumes') or []:
+            c=pvcs.get((p.get('namespace') or 'default',v['claim']))
+            if not c: print('   VOLUME',p['name'],v['name'],'claim',v['claim'],'DOES NOT EXIST'); continue
+            if c.get('volumeName'): print('   VOLUME',p['name'],v['name'],'claim',v['claim'],'bound to',c['volumeName'],'terms',json.dumps((pvs.get(c['volumeName']) or {'terms':'PV DOES NOT EXIST'}).get('terms')))
+            else: print('   VOLUME',p['name'],v['name'],'claim',v['claim'],'unbound, class',c.get('storageClass'),json.dumps(scs.get(c.get('storageClass'))))
+if s.get('namespaces'): print('NAMESPACES',json.dumps(s['namespaces']))
 for p in s['pools']: print('POOL',json.dumps({k:v for k,v in p.items() if v}))
 print('ITS',[ (i['name'],i['cpu'],i['overheadCPU'],i['pods'],[(o['zone'],o['capacityType'],o['available']) for o in i['offerings']]) for i in s['its']])
 print('DS',json.dumps(s['daemonsets']))
